@@ -2,6 +2,7 @@
 //
 //	symbols hist              stdin: universe line + history cases (MCSymbolsHist)       -> C17 direction A
 //	symbols sched             stdin: universe line + schedule cases (MCSymbolsConc)      -> C16 direction A (gates)
+//	symbols variant           stdin: universe line; prints which step order the code has (orig / fixed)
 //	symbols run   -out trace  stdin: universe line + partition cases; free-running       -> C16 direction B (+ -race)
 //
 // Every mode prints one JSON object per disagreement and a final {"summary": ...} line.
@@ -48,6 +49,8 @@ func main() {
 		_, err = runHist(un, in, out, strings.Split(*forms, ","))
 	case "sched":
 		err = runSched(un, in, out, strings.Split(*forms, ","))
+	case "variant":
+		err = runVariant(un, out)
 	case "run":
 		err = runFree(un, in, out, strings.Split(*forms, ","), *traceOut, *seed, *rounds, *lookups, *notrace)
 	default:
